@@ -18,7 +18,7 @@ CLAUSES = ('C07',)
 TECHNIQUE = 'Hypothesis pairs of argument structures built by equality-preserving / near-miss edits and path spellings; observed identity (duplicate rejection in one build, hit/miss in the next) vs. an independent canonical JSON form'
 RULE = ('Each case = a pair of calls (subbuild or build_file): function names equal or different, positional and keyword '
         'arguments a2 obtained from a1 by 0-3 edits (list<->tuple, 1<->1.0<->True, key order, key 1<->"1", element order, '
-        'dropped/added elements; values incl. ints > 2**53, -0.0, inf, non-BMP strings, nested containers with non-string '
+        'dropped/added elements, a keyword argument moved to the positional arguments as name+value / dict / pair; values incl. ints > 2**53, -0.0, inf, non-BMP strings, nested containers with non-string '
         'keys), and for build_file two spellings of the same or of different paths (relative, bytes, pathlib, __fspath__, '
         'redundant separators, ./, x/../, trailing slash). Reference: same entry iff same name, same '
         'os.path.abspath(os.fsdecode(path)) and canon(args,kwargs) equal. Observed both ways: in one build the second call '
@@ -199,6 +199,25 @@ def cases(draw):
         a2, k2 = tuple(both[0]), dict(both[1])
     else:
         a2, k2 = a1, dict(k1)       # the edit broke the [args, kwargs] shape: fall back to the identical pair
+    if draw(st.sampled_from(range(6))) == 0:
+        # the boundary between positional and keyword arguments moves: f('k', v) / f(k=v) / f({'k': v}) / f(['k', v])
+        if not k1:
+            k1 = {draw(kw_names): draw(valgen.raw_values(4, subclasses=False))}
+        name = sorted(k1)[-1]
+        rest = {kk: vv for kk, vv in k1.items() if kk != name}
+        shift = draw(st.sampled_from(['kw->pos', 'kw->posdict', 'kw->poslist', 'allkw->posdict', 'pos<->kw']))
+        if shift == 'kw->pos':
+            a2, k2 = tuple(a1) + (name, k1[name]), rest
+        elif shift == 'kw->posdict':
+            a2, k2 = tuple(a1) + ({name: k1[name]},), rest
+        elif shift == 'kw->poslist':
+            a2, k2 = tuple(a1) + ([name, k1[name]],), rest
+        elif shift == 'allkw->posdict':
+            a2, k2 = tuple(a1) + (dict(k1),), {}
+        else:
+            a2, k2 = (name, k1[name]) + tuple(a1), rest
+        if draw(st.booleans()):
+            a1, k1, a2, k2 = a2, k2, a1, k1
     n1 = draw(st.sampled_from(['f', 'f', 'g', 'é', '']))
     n2 = n1 if draw(st.sampled_from(range(4))) else draw(st.sampled_from(['f', 'g', 'F']))
     case = {'kind': kind, 'a1': enc(a1), 'k1': enc(k1), 'a2': enc(a2), 'k2': enc(k2), 'n1': n1, 'n2': n2}
